@@ -680,6 +680,18 @@ func (ex *Exec) evalCall(x ECall, st *State, env *Env) TV {
 			r = ex.scalarOf(v.V)
 		}
 		return TV{Sc{And(Ge(r, base), Lt(r, st.alloc))}, tBool}
+	case "visited": // visited(k): key k has already been produced by the (only) map range of this function
+		k := ex.scalarOf(arg(0).V)
+		var keys []string
+		for hk := range st.heap {
+			if strings.HasPrefix(hk, "visited<") {
+				keys = append(keys, hk)
+			}
+		}
+		if len(keys) != 1 {
+			panic(unsupported(fmt.Sprintf("visited(): %d map ranges in scope", len(keys))))
+		}
+		return TV{Sc{Sel(st.heap[keys[0]], k)}, tBool}
 	case "emod": // Euclidean remainder (what % computes on unsigned operands)
 		return TV{Sc{app(SInt, "mod", sc(arg(0).V), sc(arg(1).V))}, tInt}
 	case "ediv":
